@@ -103,6 +103,8 @@ type FuncContract struct {
 	Modifies []*Expr
 	Hide     map[string][]string // callee (suffix of its key) -> labels of ensures not to assume
 	ModGiven bool
+	ModGhost bool
+	Const    bool // pure const: independent of the state
 	Invs     []*Clause // loop invariants (Loop = ordinal)
 	Decs     []*Clause
 	Uses     []*Clause // for lemmas
@@ -116,7 +118,11 @@ type SpecFunc struct {
 	Name    string
 	Params  []BoundVar
 	RetSrc  string
-	Body    *Expr
+	// Ghost: an uninterpreted function of its arguments AND of the state it is evaluated in (ghost
+	// state attached to objects whose representation is not visible, e.g. the bytes written to a
+	// hash.Hash so far). Written `spec func f(x T) R ghost`.
+	Ghost bool
+	Body  *Expr
 	PkgPath string
 	File    string
 	Line    int
@@ -279,6 +285,10 @@ func parseContractText(path, pkgPath, text string) (*ContractFile, error) {
 				cur.Hide[name] = append(cur.Hide[name], labels...)
 			case "pure":
 				cur.Pure = true
+				if strings.TrimSpace(rest) == "const" {
+					// the result depends on the argument values only, not on any state (heap or ghost)
+					cur.Const = true
+				}
 			case "panics":
 				cur.Panics = true
 			case "trusted":
@@ -311,6 +321,12 @@ func parseContractText(path, pkgPath, text string) (*ContractFile, error) {
 				}
 				if r == "anything" {
 					cur.NoFrame = true
+					break
+				}
+				if r == "ghost" {
+					// no memory the program can read is written, but ghost state changes: functions
+					// of the state (pure functions, ghost spec functions) must be re-evaluated
+					cur.ModGhost = true
 					break
 				}
 				for _, part := range splitTop(r, ',') {
@@ -554,6 +570,10 @@ func parseSpecFunc(s string) (*SpecFunc, error) {
 		}
 		sf.Body = e
 	} else {
+		if strings.HasSuffix(tail, " ghost") {
+			sf.Ghost = true
+			tail = strings.TrimSpace(strings.TrimSuffix(tail, " ghost"))
+		}
 		sf.RetSrc = tail
 	}
 	if sf.RetSrc == "" {
